@@ -248,6 +248,72 @@ def from_variant_part(rep):
     rep.functions += describe(fns, [name])
 
 
+# what serde writes for the corpus items that combine rename_all / rename_all_fields / explicit renames (read off serde_derive's rules:
+# an explicit rename wins over every rule; the enum's rename_all renames variants only; rename_all_fields renames the fields of struct
+# variants unless the variant has its own rename_all; raw identifiers lose `r#` first).  `$T` is the abstract parameter.
+ROUTING = [
+    ('RN1', '{ keep: $T, BB: $T, TYPE: $T }'),
+    ('RN2', '{ "Keep": $T } | { "bb": { cc_dd: $T } } | "ccdd"'),
+    ('RN3', '{ "fooBar": { BAZ_QUX: $T } } | { "quuxCorge": { "grault-x": $T, own: $T } }'),
+    ('RN4', '{ "kind": "HTTP_SERVER", port_no: $T } | { "kind": "V2_BETA" }'),
+    ('RN5', '{ "http-server2": $T, "-lead": $T, "trail-": $T, a: $T }'),
+]
+
+
+def routing_part(rep):
+    """Tier B: the derive-generated inline() of the ROUTING corpus items, with the type argument abstract, parsed and normalised
+    (props/tsparse.py), equals the binding serde's naming rules prescribe"""
+    from . import tyres
+    from . import tsparse as TP
+    tyres.setup()
+    TG = tyres.G
+    cand = []
+    for name, want in ROUTING:
+        if name not in TG['corpus']:
+            rep.inconclusive.append(f'routing: corpus item {name} missing')
+            continue
+        ex = Explorer()
+
+        def h(ctx):
+            r = tyres.Resolver(['T'])
+            m = tyres.machine(ctx, r)
+            return list(m.call(f'<{name}<T> as TS>::inline', []).cs)
+        try:
+            res = ex.run(h)
+        except (Unsupported, Panic) as e:
+            rep.inconclusive.append(f'routing {name}: {e}')
+            continue
+        rep.absorb(dict(paths=ex.paths, nontrivial=ex.paths, queries=ex.queries, solver_s=ex.solver_s))
+        for pc, rope in res:
+            rep.obligations += 1
+            try:
+                got = TP.show(TP.normalize(TP.parse(rope)))
+            except TP.ParseError as e:
+                got = f'<not a TypeScript type: {e}>'
+            exp = TP.show(TP.normalize(TP.parse_text(want)))
+            if got != exp:
+                cand.append((name, got, exp, tyres.show_rope(rope)))
+            else:
+                rep.discharged += 1
+    if cand:
+        from . import c07
+        nat = {k_: v for k_, v in c07.native_probe(rep).items() if v[0] == 'ok'}
+        for name, got, exp, text in cand:
+            confirmed = None
+            if (name, 'inline') in nat:
+                try:
+                    ng = TP.show(TP.normalize(TP.parse([ord(c) for c in nat[name, 'inline'][1]])))
+                    confirmed = ng != TP.show(TP.normalize(TP.parse_text(dict(ROUTING)[name].replace('$T', 'Arg1'))))
+                except TP.ParseError:
+                    confirmed = True
+            if confirmed is False:
+                rep.inconclusive.append(f'engine finding does not reproduce natively: routing {name}: {got}')
+            else:
+                rep.violations.append({'what': f'{TG["corpus"][name]["src"]}: bound as {got}, serde writes {exp}',
+                                       'witness': {'item': name, 'text': text, 'native': nat.get((name, 'inline'))}, 'key': f'routing/{name}'})
+    rep.part('naming rules routed through the derive (tier B corpus RN1..RN5)', items=len(ROUTING))
+
+
 def main():
     rep = report.Report('C09', 'bounded symbolic execution of rustc MIR: ts-rs Inflection methods and serde_derive case.rs run on one '
                                'symbolic identifier per (rule, position, length); z3 decides equality of the two results on every path')
@@ -296,6 +362,10 @@ def main():
             else:
                 rep.inconclusive.append(f'engine counterexample does not reproduce natively (model divergence): {c}')
     from_variant_part(rep)
+    try:
+        routing_part(rep)
+    except Unsupported as e:
+        rep.inconclusive.append(f'routing part: {e}')
     return rep.finish()
 
 
